@@ -1,6 +1,8 @@
 (* C12_Model.v — executable model of
      internal/app/referenceserver/checks.go  (referenceServerChecks and everything it calls)
      internal/app/referenceserver/impl.go    (createRequestInfo: TimeoutMs from timeoutFromContext)
+     internal/app/referenceserver/server.go  (createServer: the order in which the HTTP/1.1-bidi
+                                              workaround, referenceServerChecks and the RPC handler are composed)
      internal/app/connectconformance/server_runner.go (extraHeaders -> with_expect)
    plus `render`, the spec-conformant client rendering of a point of the test matrix.
    The tables in C12_Consts.v are regenerated from the compiled code on every run.
@@ -82,6 +84,16 @@ Definition set_grpc_timeout (r : request) (v : list bytes) : request :=
   {| proto_major := proto_major r; method := method r; content_type := content_type r;
      grpc_encoding := grpc_encoding r; connect_content_encoding := connect_content_encoding r;
      content_encoding := content_encoding r; te := te r; connect_timeout := connect_timeout r; grpc_timeout := v;
+     x_name := x_name r; x_version := x_version r; x_method := x_method r; x_protocol := x_protocol r;
+     x_codec := x_codec r; x_compression := x_compression r; x_tls := x_tls r; x_cert := x_cert r;
+     q_encoding := q_encoding r; q_compression := q_compression r; body_empty := body_empty r;
+     tls := tls r; trailer_keys := trailer_keys r |}.
+
+Definition set_proto_major (r : request) (v : Z) : request :=
+  {| proto_major := v; method := method r; content_type := content_type r;
+     grpc_encoding := grpc_encoding r; connect_content_encoding := connect_content_encoding r;
+     content_encoding := content_encoding r; te := te r; connect_timeout := connect_timeout r;
+     grpc_timeout := grpc_timeout r;
      x_name := x_name r; x_version := x_version r; x_method := x_method r; x_protocol := x_protocol r;
      x_codec := x_codec r; x_compression := x_compression r; x_tls := x_tls r; x_cert := x_cert r;
      q_encoding := q_encoding r; q_compression := q_compression r; body_empty := body_empty r;
@@ -329,7 +341,11 @@ Inductive outcome :=
          (timeout : option Z)    (* duration stored in the context handed to the inner handler (ns) *)
          (seen : request).       (* the request the inner handler sees *)
 
-Definition checks (c : calls) (r : request) : calls * outcome :=
+(* referenceServerChecks has three phases: what it does BEFORE it calls the wrapped handler (`enter`:
+   test name, call counter read AND incremented under one lock region, the per-aspect checks, timeout
+   extraction), the wrapped handler itself, and what it does AFTER the handler has returned (`leave`:
+   body drained, request trailers counted).  While the handler runs other requests may enter. *)
+Definition enter (c : calls) (r : request) : calls * outcome :=
   let name := first (x_name r) in
   match name with
   | [] => (c, Rejected)
@@ -356,8 +372,17 @@ Definition checks (c : calls) (r : request) : calls * outcome :=
                  end in
     let f_tls := check_tls r' in
     let f_met := check_method r' in
-    let f_trl := if 0 <? trailer_keys r' then [KTrailers (trailer_keys r')] else [] in
-    (bump c name, Served name (f_rep ++ f_ver ++ f_pro ++ f_cod ++ f_cmp ++ f_tls ++ f_met ++ f_trl) t r')
+    (bump c name, Served name (f_rep ++ f_ver ++ f_pro ++ f_cod ++ f_cmp ++ f_tls ++ f_met) t r')
+  end.
+
+Definition leave (r' : request) : fb :=
+  if 0 <? trailer_keys r' then [KTrailers (trailer_keys r')] else [].
+
+(* one request handled without anything in between: entry, handler, exit *)
+Definition checks (c : calls) (r : request) : calls * outcome :=
+  match enter c r with
+  | (c', Served name f t r') => (c', Served name (f ++ leave r') t r')
+  | (c', Rejected) => (c', Rejected)
   end.
 
 (* createRequestInfo: TimeoutMs = timeout.Milliseconds() when the context carries one *)
@@ -372,7 +397,81 @@ Fixpoint run_seq (c : calls) (rs : list request) : list outcome :=
   | [] => []
   | r :: rs' => let '(c', o) := checks c r in o :: run_seq c' rs'
   end.
+
+(* ---------- overlapping requests: histories of BEGIN and END events ---------- *)
+(* EvBegin r: a request arrives and runs up to the point where the wrapped handler is called (one
+   atomic step: the only shared state, the call counter, is read and written inside one lock region
+   at the very beginning).  EvEnd i: the handler of the i-th begun request (0-based, counting every
+   EvBegin) returns and that request runs to its end.  In between, any number of other requests may
+   begin and end. *)
+Inductive event := EvBegin (r : request) | EvEnd (i : nat).
+
+Inductive ev_out :=
+| OBegin (o : outcome)              (* Rejected, or Served with the feedback written before the handler is called *)
+| OEnd (name : bytes) (f : fb)      (* feedback written after the handler returned *)
+| OIdle.                            (* EvEnd of a request that is not in flight: nothing happens *)
+
+(* in flight: per EvBegin, in order, the request its handler was given (None: rejected or already ended) *)
+Record hstate := { h_calls : calls; h_open : list (option request) }.
+Definition h_init : hstate := {| h_calls := []; h_open := [] |}.
+
+Fixpoint close_nth (l : list (option request)) (i : nat) : list (option request) :=
+  match l, i with
+  | [], _ => []
+  | _ :: l', O => None :: l'
+  | x :: l', S i' => x :: close_nth l' i'
+  end.
+
+Definition step (s : hstate) (e : event) : hstate * ev_out :=
+  match e with
+  | EvBegin r =>
+    let '(c', o) := enter (h_calls s) r in
+    ({| h_calls := c';
+        h_open := h_open s ++ [match o with Served _ _ _ r' => Some r' | Rejected => None end] |}, OBegin o)
+  | EvEnd i =>
+    match nth_error (h_open s) i with
+    | Some (Some r') =>
+      ({| h_calls := h_calls s; h_open := close_nth (h_open s) i |}, OEnd (first (x_name r')) (leave r'))
+    | _ => (s, OIdle)
+    end
+  end.
+
+Fixpoint run_events (s : hstate) (es : list event) : list ev_out :=
+  match es with
+  | [] => []
+  | e :: es' => let '(s', o) := step s e in o :: run_events s' es'
+  end.
+
+(* ---------- createServer (reference mode): how the layers are composed ---------- *)
+(* innermost first:   mux (connect-go RPC handlers, one per procedure)
+                      <- HTTP/1.1-bidi workaround (BidiStream path and ProtoMajor = 1: the request is
+                         relabelled HTTP/2.0 so that connect-go serves half-duplex bidi)
+                      <- referenceServerChecks
+                      <- rawResponder <- (tracing) <- cors <- (h2c upgrade for HTTP/2 without TLS).
+   rawResponder, cors and h2c do not touch what the checks read.  So the checks judge the request as it
+   arrived; only the RPC handler is told the other version. *)
+Inductive procedure := ProcUnary | ProcServerStream | ProcClientStream | ProcBidiStream | ProcIdempotentUnary.
+Definition is_bidi (p : procedure) : bool := match p with ProcBidiStream => true | _ => false end.
+
+Definition bidi_workaround (p : procedure) (r : request) : request :=
+  if is_bidi p && (proto_major r =? 1) then set_proto_major r 2 else r.
+
+(* the outcome's `seen` is now the request as the RPC handler gets it *)
+Definition server (c : calls) (p : procedure) (r : request) : calls * outcome :=
+  match checks c r with
+  | (c', Served name f t r') => (c', Served name f t (bidi_workaround p r'))
+  | (c', Rejected) => (c', Rejected)
+  end.
+
+Fixpoint run_server (c : calls) (p : procedure) (rs : list request) : list outcome :=
+  match rs with
+  | [] => []
+  | r :: rs' => let '(c', o) := server c p r in o :: run_server c' p rs'
+  end.
 End Timeout.
+
+(* connect-go refuses (505) a bidi stream whose request says HTTP/1.x: what the workaround prevents *)
+Definition handler_refuses (p : procedure) (seen : request) : bool := is_bidi p && (proto_major seen <? 2).
 
 Definition feedback_of (o : outcome) : fb := match o with Served _ f _ _ => f | Rejected => [] end.
 
@@ -595,9 +694,10 @@ Definition run_c12_timeouts (args : list sx) : sx :=
                           | None => sx_bad end) vals))
   | _ => None end).
 
-(* c12.live: mode request -> outcome of that request sent by a real client over a real listener:
-   the transport decides HTTP version, TLS and client certificate (0 HTTP/1.1 plain, 1 HTTP/1.1 TLS,
-   2 HTTP/1.1 TLS + client certificate, 3 HTTP/2 TLS, 4 HTTP/2 TLS + client certificate, 5 h2c) *)
+(* transports of the live kinds: the transport decides HTTP version, TLS and client certificate
+   (0 HTTP/1.1 plain, 1 HTTP/1.1 TLS, 2 HTTP/1.1 TLS + client certificate, 3 HTTP/2 TLS,
+    4 HTTP/2 TLS + client certificate, 5 h2c with prior knowledge, 6 HTTP/1.1 plain to the h2c server,
+    7 HTTP/1.1 over TLS to the HTTP/2 server) *)
 Definition with_transport (mode : Z) (r : request) : option request :=
   let mk pm t :=
     Some {| proto_major := pm; method := method r; content_type := content_type r;
@@ -613,11 +713,95 @@ Definition with_transport (mode : Z) (r : request) : option request :=
   else if mode =? 3 then mk 2 (Some [])
   else if mode =? 4 then mk 2 (Some [c12_client_cert_name])
   else if mode =? 5 then mk 2 None
+  else if mode =? 6 then mk 1 None
+  else if mode =? 7 then mk 1 (Some [])
   else None.
+
+(* c12.wire: mode request -> outcome of that request sent by a real client over a real listener to
+   referenceServerChecks around a recording handler (modes 0-5) *)
+Definition run_c12_wire (args : list sx) : sx :=
+  or_bad (match args with
+  | [I mode; r] =>
+    if (0 <=? mode) && (mode <=? 5) then
+      do r <- un_request r; do r <- with_transport mode r; ret (sx_outcome (snd (checks_x [] r)))
+    else None
+  | _ => None end).
+
+(* c12.events: ((0 request) | (1 index) ...) on one wrapped handler whose inner handler parks until the
+   matching (1 index) -> per event what was written during that event.  An end of something that is not
+   in flight is not a case. *)
+Definition un_event (s : sx) : option event :=
+  match s with
+  | L [I 0; r] => do r <- un_request r; ret (EvBegin r)
+  | L [I 1; i] => do i <- un_nat i; ret (EvEnd i)
+  | _ => None
+  end.
+Definition sx_ev_out (o : ev_out) : sx :=
+  match o with
+  | OBegin o => L [I 0; sx_outcome o]
+  | OEnd name f => L [I 1; B (match f with [] => [] | _ => name end); L (map sx_kind f)]
+  | OIdle => sx_bad
+  end.
+Definition is_idle (o : ev_out) : bool := match o with OIdle => true | _ => false end.
+Definition run_c12_events (args : list sx) : sx :=
+  or_bad (match args with
+  | [es] =>
+    do es <- un_listof un_event es;
+    let outs := run_events Z.quot h_init es in
+    if existsb is_idle outs then None else ret (L (map sx_ev_out outs))
+  | _ => None end).
+
+(* c12.live: mode procedure (request ...) sent in order by a real client to the server that createServer
+   builds (reference mode) -> per request: rejected, or prefix, feedback as a multiset (sorted by kind),
+   whether the RPC handler refused the HTTP version, and - for the requests the RPC handler answers with a
+   decodable unary response - what its RequestInfo says about the timeout *)
+Definition kind_tag (k : kind) : Z := match sx_kind k with L (I t :: _) => t | _ => 0 end.
+Fixpoint insert_kind (k : kind) (l : fb) : fb :=
+  match l with
+  | [] => [k]
+  | x :: l' => if kind_tag k <=? kind_tag x then k :: l else x :: insert_kind k l'
+  end.
+Definition sort_kinds (f : fb) : fb := fold_right insert_kind [] f.
+
+Definition un_procedure (s : sx) : option procedure :=
+  match s with
+  | I 0 => Some ProcUnary | I 1 => Some ProcServerStream | I 2 => Some ProcClientStream
+  | I 3 => Some ProcBidiStream | I 4 => Some ProcIdempotentUnary | _ => None
+  end.
+
+Definition is_single (v : list bytes) (b : bytes) : bool := match v with [x] => bytes_eqb x b | _ => false end.
+Definition is_nil {A} (l : list A) : bool := match l with [] => true | _ => false end.
+(* requests the reference server's unary handlers answer with a response message: a Connect unary POST of an
+   empty proto message, or a gRPC-Web POST of one empty enveloped message (the live harness sends five zero
+   bytes as the non-empty body), uncompressed, and no timeout header that connect-go would still find (none
+   sent, or the announced protocol is the one whose header the checks remove).  A predicate on the request as
+   sent, so that the harness can evaluate it without knowing what the checks do. *)
+Definition echo_observable (p : procedure) (r : request) : bool :=
+  match p with ProcUnary | ProcIdempotentUnary => true | _ => false end &&
+  bytes_eqb (method r) m_post && (trailer_keys r =? 0) &&
+  ((is_single (content_type r) (lit "application/proto") && is_nil (content_encoding r) && body_empty r &&
+    (is_nil (connect_timeout r) || is_single (x_protocol r) (lit "1"))) ||
+   ((is_single (content_type r) ct_grpc_web || is_single (content_type r) (lit "application/grpc-web+proto")) &&
+    is_nil (grpc_encoding r) && negb (body_empty r) &&
+    (is_nil (grpc_timeout r) || is_single (x_protocol r) (lit "2") || is_single (x_protocol r) (lit "3")))).
+
+Definition sx_live (p : procedure) (r : request) (o : outcome) : sx :=
+  match o with
+  | Rejected => L [B (lit "rejected")]
+  | Served name f t seen =>
+    L [ B (match f with [] => [] | _ => name end); L (map sx_kind (sort_kinds f));
+        sx_bool (handler_refuses p seen);
+        if echo_observable p r
+        then L [sx_opt I (echo_ms o); sx_bool (present (connect_timeout seen)); sx_bool (present (grpc_timeout seen))]
+        else L [] ]
+  end.
 
 Definition run_c12_live (args : list sx) : sx :=
   or_bad (match args with
-  | [I mode; r] => do r <- un_request r; do r <- with_transport mode r; ret (sx_outcome (snd (checks_x [] r)))
+  | [I mode; p; rs] =>
+    do p <- un_procedure p;
+    do rs <- un_listof (fun x => do r <- un_request x; with_transport mode r) rs;
+    ret (L (map (fun ro => sx_live p (fst ro) (snd ro)) (combine rs (run_server Z.quot [] p rs))))
   | _ => None end).
 
 Definition c12_table : list (bytes * (list sx -> sx)) :=
@@ -625,4 +809,6 @@ Definition c12_table : list (bytes * (list sx -> sx)) :=
     (lit "c12.matrix", run_c12_matrix);
     (lit "c12.render", run_c12_render);
     (lit "c12.timeouts", run_c12_timeouts);
+    (lit "c12.wire", run_c12_wire);
+    (lit "c12.events", run_c12_events);
     (lit "c12.live", run_c12_live) ].
